@@ -489,6 +489,15 @@ func TestC19Callable(t *testing.T) {
 					target = reflect.New(c19Types[ix].t).Interface()
 					perturbed = true
 				}
+				// the same *any target may stand for two results (like `x, x = f()`: the later result wins)
+				if i > 0 && tt == c19TypeOf[any]() && rapid.IntRange(0, 3).Draw(t, "aliasTarget") == 0 {
+					for j := i - 1; j >= 0; j-- {
+						if p, ok := targets[j].(*any); ok && p != nil {
+							target = p
+							break
+						}
+					}
+				}
 				targets = append(targets, target)
 			}
 			switch rapid.IntRange(0, 9).Draw(t, "tgtCount") {
@@ -837,8 +846,16 @@ func TestC19Callable(t *testing.T) {
 				case "results":
 					for i, target := range targets {
 						gotV := c19Box(reflect.ValueOf(target).Elem())
-						if !c19Same(gotV, outBoxed[i]) {
-							vkit.Fail(t, "C19/results/value", "result %d: target holds %v (%s), direct call returns %v (%s)\ncase: %v", i, gotV, c19Describe(gotV), outBoxed[i], c19Describe(outBoxed[i]), trace)
+						// results are stored left to right, as in a tuple assignment: an aliased target holds the
+						// value of the last result it stands for
+						want := outBoxed[i]
+						for j := i + 1; j < len(targets); j++ {
+							if targets[j] == target {
+								want = outBoxed[j]
+							}
+						}
+						if !c19Same(gotV, want) {
+							vkit.Fail(t, "C19/results/value", "result %d: target holds %v (%s), a direct call leaves %v (%s) there\ncase: %v", i, gotV, c19Describe(gotV), want, c19Describe(want), trace)
 						}
 					}
 				case "slice":
